@@ -122,6 +122,8 @@ type dynIns struct {
 	Mode                 int // dispatch mode: 0 plain, 1 forward, 2 rename
 	FwdFrom              int32
 	DispCycle, ExecCycle int // cycle of the first dispatch event and of the execution record
+	WBCycle              int // cycle of the first register write-back event (0 if none)
+	WBIdx, DispIdx       int // log positions of the first write-back / dispatch event (0 if none; the log starts with a decode)
 }
 
 type lsStats struct {
@@ -144,6 +146,7 @@ type lsResult struct {
 	Detail string
 	Stats  lsStats
 	Dyn    []dynIns
+	Surv   []int    // indexes into Dyn of the surviving (not squashed) instructions, in program order
 	Mech   []string // mechanism signatures observed in the machine's own event log (dynamic triggers)
 }
 
@@ -229,11 +232,16 @@ func buildDyn(c config, log []risc.VerifRec) ([]dynIns, lsStats, string) {
 				switch r.Kind {
 				case risc.VerifKindRegWB:
 					d.RegWB++
+					if d.WBCycle == 0 {
+						d.WBCycle = r.Cycle
+						d.WBIdx = i
+					}
 				case risc.VerifKindStore:
 					d.Stores++
 				case risc.VerifKindDispatch:
 					if d.DispCycle == 0 {
 						d.DispCycle = r.Cycle
+						d.DispIdx = i
 					}
 					if int(r.A) > d.Mode {
 						d.Mode = int(r.A)
@@ -293,6 +301,7 @@ func lockstep(c config, p rProg, ref *refState, obs *observation) lsResult {
 			surv = append(surv, i)
 		}
 	}
+	res.Surv = surv
 	// MVP-6.0/6.1 write results straight into the register file: a register
 	// write-back by a squashed instruction is an architectural wrong-path effect.
 	if (c.V == "mvp6-0" || c.V == "mvp6-1") && st.SquashedRegWB > 0 {
@@ -350,6 +359,59 @@ func lockstep(c config, p rProg, ref *refState, obs *observation) lsResult {
 			res.Pc = step.Pc
 			timing := ""
 			res.Sub = explain(p, ref, k, got, obs.Log[d.Exec].Mem, squashedRegVals(dyn, obs))
+			if strings.HasPrefix(res.Sub, "stale-operand(") && d.DispCycle > 0 {
+				// The instruction used an older value of a register. The known renaming gap (two writers of one
+				// register in flight) explains that only if a writer of the register (the right producer or an
+				// older one) was still in flight when the consumer was dispatched, or an older writer's result
+				// landed after the producer's. If every older writer had written back, in order, before the
+				// dispatch, the value was there and was lost or not found: a different mechanism.
+				// (Tested on every source register: the same wrong result can often be explained by a stale value
+				// of either operand, and the explanation names only the first that fits.)
+				possible := false // could the known gap explain a stale value of some source register?
+				var witness string
+				for _, reg := range in.srcRegs() {
+					prod := -1
+					for j := k - 1; j >= 0 && reg > 0; j-- {
+						t := ref.Trace[j]
+						if t.Res.WroteReg && p.Ins[t.Idx].Rd == reg {
+							prod = j
+							break
+						}
+					}
+					if prod < 0 || prod >= len(surv) {
+						continue
+					}
+					// positions in the event log give the order of events inside one cycle as well
+					pd := dyn[surv[prod]]
+					if pd.WBIdx == 0 || pd.WBIdx > d.DispIdx {
+						possible = true
+					}
+					for j := prod - 1; j >= 0; j-- {
+						t := ref.Trace[j]
+						if t.Res.WroteReg && p.Ins[t.Idx].Rd == reg {
+							// an older writer that was still in flight at the dispatch, or that landed after the producer
+							if w := dyn[surv[j]].WBIdx; w == 0 || w > d.DispIdx || w > pd.WBIdx {
+								possible = true
+							}
+						}
+					}
+					// a younger writer whose result landed before the consumer executed (in a loop its value often
+					// equals an older one, so a write-after-read slip can look like a stale operand)
+					for j := k + 1; j < len(ref.Trace) && j < len(surv) && j <= k+16; j++ {
+						t := ref.Trace[j]
+						if t.Res.WroteReg && p.Ins[t.Idx].Rd == reg {
+							if w := dyn[surv[j]].WBIdx; w > 0 && w < d.Exec {
+								possible = true
+							}
+						}
+					}
+					witness += fmt.Sprintf(" producer of %s (step %d) wrote back in cycle %d;", regNames[reg], prod, pd.WBCycle)
+				}
+				if !possible && witness != "" {
+					res.Sub = strings.Replace(res.Sub, "stale-operand(", "stale-operand-avail(", 1)
+					timing = fmt.Sprintf(" {%s consumer dispatched in cycle %d, executed in %d; no older writer of a source register in flight or landing out of order, no younger writer landed before the execution}", witness, d.DispCycle, d.ExecCycle)
+				}
+			}
 			if strings.HasPrefix(res.Sub, "future-load") && d.DispCycle > 0 {
 				// A load returned the data of a younger store. Which mechanism?
 				//  reordered: the store was dispatched before, or in the same cycle as, the (older) load, or it executed
@@ -376,6 +438,7 @@ func lockstep(c config, p rProg, ref *refState, obs *observation) lsResult {
 				}
 				timing += "}"
 			}
+			res.Mech = append(res.Mech, commitMechanisms(p, ref, dyn, surv, obs, in.srcRegs(), k)...)
 			res.Detail = fmt.Sprintf("step %d pc=%d (%s): reference %s, machine %s [%s]%s", k, step.Pc, in.Text, want, got, res.Sub, timing)
 			return res
 		}
@@ -660,6 +723,72 @@ func squashedRegVals(dyn []dynIns, obs *observation) map[int][]int32 {
 	return m
 }
 
+// commitMechanisms looks, in the machine's own event log, for the one known way in which the renaming variants
+// (MVP-6.3+) still mishandle a register after the tag-order fixes: a conditional branch resolves - which commits or
+// rolls back the speculative register state as a whole and forgets the tags - while an instruction older than that
+// branch is still in flight.
+//
+//	older-writer-landed-after-commit: for a register in regs, the right producer (last writer before step k) had
+//	    written back, a conditional branch executed, and then an older writer of the same register wrote back;
+//	older-reader-executed-after-commit: a younger writer (after step k) of a register in regs wrote back, a
+//	    conditional branch executed, and only then did the instruction at step k execute.
+//
+// k == len(ref.Trace) asks about the final state (only the first tag applies).
+func commitMechanisms(p rProg, ref *refState, dyn []dynIns, surv []int, obs *observation, regs []int, k int) []string {
+	isCond := func(pc int32) bool {
+		i := int(pc / 4)
+		return i >= 0 && i < len(p.Ins) && isCondBranch(p.Ins[i].Op)
+	}
+	branchBetween := func(a, b int) bool {
+		for i := a + 1; i < b && i < len(obs.Log); i++ {
+			if r := obs.Log[i]; r.Kind == risc.VerifKindExec && isCond(r.Pc) {
+				return true
+			}
+		}
+		return false
+	}
+	landed, readLate := false, false
+	for _, reg := range regs {
+		if reg <= 0 {
+			continue
+		}
+		prod := -1
+		for j := k - 1; j >= 0; j-- {
+			if j < len(surv) && ref.Trace[j].Res.WroteReg && p.Ins[ref.Trace[j].Idx].Rd == reg {
+				prod = j
+				break
+			}
+		}
+		if prod >= 0 {
+			pw := dyn[surv[prod]].WBIdx
+			for j := prod - 1; j >= 0 && pw > 0; j-- {
+				if ref.Trace[j].Res.WroteReg && p.Ins[ref.Trace[j].Idx].Rd == reg {
+					if w := dyn[surv[j]].WBIdx; w > pw && branchBetween(pw, w) {
+						landed = true
+					}
+				}
+			}
+		}
+		if k < len(ref.Trace) && k < len(surv) && dyn[surv[k]].Exec > 0 {
+			for j := k + 1; j < len(ref.Trace) && j < len(surv) && j <= k+32; j++ {
+				if ref.Trace[j].Res.WroteReg && p.Ins[ref.Trace[j].Idx].Rd == reg {
+					if w := dyn[surv[j]].WBIdx; w > 0 && w < dyn[surv[k]].Exec && branchBetween(w, dyn[surv[k]].Exec) {
+						readLate = true
+					}
+				}
+			}
+		}
+	}
+	var out []string
+	if landed {
+		out = append(out, "older-writer-landed-after-commit")
+	}
+	if readLate {
+		out = append(out, "older-reader-executed-after-commit")
+	}
+	return out
+}
+
 // mechanismSignatures derives triggers from the machine's own event log:
 //
 //	early-commit: a conditional branch resolved not-taken (which commits all speculative
@@ -692,7 +821,32 @@ func mechanismSignatures(p rProg, dyn []dynIns, obs *observation) []string {
 			}
 		}
 	}
+	// commit-with-older-in-flight: a conditional branch resolved (which commits or rolls back the speculative
+	// register state as a whole) while an instruction older than the branch had not executed or not written back
+	// yet. What that older instruction writes lands on top of the committed younger values, and what it reads
+	// comes from them.
+	olderInFlight := false
+	for i, d := range dyn {
+		if d.Exec < 0 || d.Squashed || !isCond(d.Pc) {
+			continue
+		}
+		for j := 0; j < i && !olderInFlight; j++ {
+			o := dyn[j]
+			if o.Squashed {
+				continue
+			}
+			if o.Exec < 0 || o.Exec > d.Exec || o.WBIdx > d.Exec {
+				olderInFlight = true
+			}
+		}
+		if olderInFlight {
+			break
+		}
+	}
 	var out []string
+	if olderInFlight {
+		out = append(out, "commit-with-older-in-flight")
+	}
 	if early {
 		out = append(out, "early-commit")
 	}
